@@ -474,10 +474,17 @@ def gen_cfg(rng):
                  "gaps": rng.choice([[0], [1], [0, 600]]), "first": rng.choice([0, 300, 1800]),
                  "ppf": rng.choice([3, 10, 40])},
            "collision_probe": rng.random() < 0.3}
+    if rng.random() < 0.2:
+        # max_interval of a day or more: the filesets' files do not overlap in time at all
+        cfg["mi_s"] = rng.choice([86400, 90000, 129600])
+        cfg["B"]["first"] = rng.choice([50000, 72000, 86000])
+        cfg["A"]["files"] = min(cfg["A"]["files"], 4)
+        cfg["B"]["files"] = min(cfg["B"]["files"], 3)
+        cfg["B"]["lengths"] = [600, 1500]
     # period: everything, or cutting through files
     total = 12 * 2400 + 3600
     if rng.random() < 0.5:
-        cfg["start"], cfg["end"] = 0, 86400 * 2
+        cfg["start"], cfg["end"] = 0, 86400 * 3
     else:
         a = rng.randrange(0, 7200)
         cfg["start"], cfg["end"] = a, a + rng.choice([900, 3600, 20000])
